@@ -1,6 +1,6 @@
 (* C20/Driver.v — entry point for the correspondence run: the model's prediction of what an
    observer of the process sees (exit status, content of every sink, diagnostics). *)
-From RM Require Import C20.Model.
+From RM Require Import C20.Model C20.Sinks C20.Wiring.
 Open Scope Z_scope.
 
 (* path identifiers used by the case format *)
@@ -25,13 +25,6 @@ Definition mk_env (cls : path -> Z) (stdout_cls : Z) (read process : bool) : env
                              | File p => (cls p =? 3) || (cls p =? 4)
                              end |}.
 
-Definition writer_eqb (a b : writer) : bool :=
-  match a, b with
-  | Stdout, Stdout => true
-  | File p, File q => p =? q
-  | _, _ => false
-  end.
-
 (* renderer codes: 1 human, 2 brief human, 3 json, 4 pretty json, 5 dump, 6 brief dump, 7 help;
    99 = a failed write that left nothing, 100 + code = a failed write that left a prefix of that rendering *)
 Definition renderer_code (r : renderer) : Z :=
@@ -52,9 +45,23 @@ Fixpoint sink_content (e : env) (tr : list event) (w : writer) : list Z :=
   end.
 Definition created (tr : list event) (p : path) : bool :=
   existsb (fun ev => match ev with Create q => p =? q | _ => false end) tr.
-(* -1 = the file does not exist afterwards *)
-Definition file_state (e : env) (tr : list event) (p : path) : list Z :=
-  if created tr p then sink_content e tr (File p) else [-1].
+
+(* the files: the state machine of Sinks.v run over the file system the run FOUND.  One token per rendering
+   (its code; 100 + code for the prefix a failing call left, 99 for a failing call that left nothing); a file that
+   exists before the run holds three tokens STALE, more than any single report.  The open mode is the one the
+   source has now (Wiring.code_sink_modes, regenerated from main.rs). *)
+Definition STALE : Z := -7.
+Definition code_mode : open_mode := if code_truncates then file_create else no_truncate.
+Definition driver_rendering (e : env) : rendering :=
+  {| r_bytes := fun r => [renderer_code r];
+     r_prefix := fun w r => [if e_partial e w r then 100 + renderer_code r else 99] |}.
+Definition found_fs (pre : path -> bool) : fsys := fun p => if pre p then Some [STALE; STALE; STALE] else None.
+(* [-1] = the file does not exist afterwards *)
+Definition file_state (e : env) (pre : path -> bool) (tr : list event) (p : path) : list Z :=
+  match fs_after code_mode (driver_rendering e) (found_fs pre) tr p with
+  | None => [-1]
+  | Some c => c
+  end.
 
 Definition has_diag (tr : list event) (c : channel) : bool :=
   existsb (fun ev => match ev, c with Diag Logger, Logger => true | Diag Stderr, Stderr => true | _, _ => false end) tr.
@@ -70,14 +77,14 @@ Record observation := {
   o_recover : bool         (* recover_function_args handed to the processor (false when no plan) *)
 }.
 
-Definition observe (f : flags) (e : env) : observation :=
+Definition observe (f : flags) (e : env) (pre : path -> bool) : observation :=
   let '(tr, code) := run f e in
   let logger_visible := negb (f_verbose_off f) in
   {| o_exit := code;
      o_stdout := sink_content e tr Stdout;
-     o_out := file_state e tr P_OUT;
-     o_cyborg := file_state e tr P_CYBORG;
-     o_log := if created tr P_LOG then [] else [-1];
+     o_out := file_state e pre tr P_OUT;
+     o_cyborg := file_state e pre tr P_CYBORG;
+     o_log := match file_state e pre tr P_LOG with [-1] => [-1] | _ => [] end;
      o_stderr_diag := has_diag tr Stderr || (has_diag tr Logger && logger_visible && negb (is_some (f_log_file f)));
      o_log_diag := has_diag tr Logger && logger_visible && is_some (f_log_file f) && created tr P_LOG;
      o_recover := match decide f with Plan p => po_recover (p_opts p) | _ => false end |}.
@@ -89,6 +96,7 @@ Definition mk_feature (z : Z) : feature :=
    the three library outcomes (read error, processing error, success) *)
 Definition run_case (human json cyborg dump help_md pretty brief : bool) (feat : Z) (recover : bool)
            (out_file log_file verbose_off : bool) (c_out c_cyborg c_log c_stdout : Z)
+           (pre_out pre_cyborg pre_log : bool)
   : observation * observation * observation :=
   let f := {| f_human := human; f_json := json;
               f_cyborg := if cyborg then Some P_CYBORG else None;
@@ -98,6 +106,19 @@ Definition run_case (human json cyborg dump help_md pretty brief : bool) (feat :
               f_log_file := if log_file then Some P_LOG else None;
               f_verbose_off := verbose_off |} in
   let cls := fun p => if p =? P_OUT then c_out else if p =? P_CYBORG then c_cyborg else c_log in
-  (observe f (mk_env cls c_stdout false false),
-   observe f (mk_env cls c_stdout true false),
-   observe f (mk_env cls c_stdout true true)).
+  let pre := fun p => if p =? P_OUT then pre_out else if p =? P_CYBORG then pre_cyborg else if p =? P_LOG then pre_log else false in
+  (observe f (mk_env cls c_stdout false false) pre,
+   observe f (mk_env cls c_stdout true false) pre,
+   observe f (mk_env cls c_stdout true true) pre).
+
+(* ---- symbol sources.  One item per symbol argument in command-line order: k = positional root k, 100 + k =
+   --symbols-path root k, 200 + d = --symbols-url d.  Roots 1 2 3 4 7 8 (alpha mid zeta file.sym testdata symargs)
+   hold symbols for the module, 5 6 (empty, missing) do not.  Answer: the paths and URLs the supplier receives, in
+   order, and the root the module's symbols are taken from (0 = none). *)
+Definition item_of_code (c : Z) : argv_item :=
+  if c <? 100 then APositional c else if c <? 200 then ASymbolsPath (c - 100) else ASymbolsUrl (c - 200).
+Definition root_has (k : path) : bool := negb ((k =? 5) || (k =? 6)).
+Definition sym_case (codes : list Z) : list Z * list Z * Z :=
+  let argv := map item_of_code codes in
+  let s := supplier_of (parse_sym argv None None 1000) in
+  (supplier_paths s, supplier_urls s, match locate root_has (supplier_paths s) with Some k => k | None => 0 end).
